@@ -332,7 +332,10 @@ class ImportURI(scoping.ModelLoader):
 
         visited = []
         for obj in get_children(
-            lambda x: hasattr(x, "importURI") and x not in visited, model
+            lambda x: (
+                hasattr(x, "importURI") and not any(x is v for v in visited)
+            ),
+            model,
         ):
             add_to_local_models = True
             if self.importURI_to_scope_name is not None:
